@@ -22,6 +22,8 @@ import (
 	"errors"
 	"fmt"
 	"io"
+	"os"
+	"path/filepath"
 	"runtime"
 	"strconv"
 	"strings"
@@ -38,7 +40,13 @@ func init() {
 	verifKinds["c11.batch"] = verifC11Batch
 }
 
-const verifC11Patience = 25 * time.Second
+// Watchdogs.  They never decide an outcome of the unchanged code (which needs microseconds, or
+// serverResponseTimeout = 10 s in the one "never answers" kind); they turn "does not end" into the
+// result `hang`, which contradicts the model's termination.
+const (
+	verifC11Patience       = 12 * time.Second // for runTestCasesForServer to return
+	verifC11ReaderPatience = 6 * time.Second  // for the stderr reader to reach the marker line
+)
 
 var (
 	verifC11Hangs    int
@@ -159,7 +167,7 @@ func (p *verifC11Printer) PrefixPrintf(_, format string, args ...any) {
 	p.mu.Lock()
 	p.lines = append(p.lines, s)
 	p.mu.Unlock()
-	if p.waitFor != "" && s == p.waitFor {
+	if p.waitFor != "" && strings.TrimSpace(s) == p.waitFor {
 		p.once.Do(func() { close(p.seen) })
 	}
 }
@@ -389,8 +397,14 @@ func verifC11TrieCount(tt *testTrie, name string) int {
 //
 //	-> ((per name: kind count sideband) returned started asked alive ends (sent) (forwarded))
 func verifC11Batch(args []vsx) vsx {
-	if verifC11Hangs >= 2 {
-		return vErr("skipped-after-two-hangs")
+	// a hang costs a watchdog period: after three of them in the main run the rest is not evaluated;
+	// while shrinking, the first hanging candidate is the one that is kept and the rest is skipped
+	shrinking := strings.HasPrefix(filepath.Base(os.Getenv("VERIF_CASES")), "shrink")
+	if shrinking && verifC11Hangs >= 1 {
+		return vL(vS("bad-case"), vS("skipped-after-a-hang"))
+	}
+	if verifC11Hangs >= 3 {
+		return vErr("skipped-after-three-hangs")
 	}
 	refsrv, refcli, tls := args[0].l[0].boolean(), args[0].l[1].boolean(), args[0].l[2].boolean()
 	startOK := args[1].boolean()
@@ -400,6 +414,36 @@ func verifC11Batch(args []vsx) vsx {
 	stderrData := args[5].b
 	chunk := int(args[6].i)
 	waitFor := args[7].str()
+
+	// ill-formed scripts (the shrinker produces them) are refused at once instead of being waited for
+	bad := vL(vS("bad-case"))
+	switch respCode {
+	case 0, 1, 2, 10, 11, 12, 13, 14:
+	default:
+		return bad
+	}
+	if wfault < 0 || wfault > 3 || dead < -1 || chunk < 0 {
+		return bad
+	}
+	if waitFor != "" {
+		// the marker must be the last line (terminated) of a stream that somebody reads
+		if !refsrv || !startOK || strings.TrimSpace(waitFor) != waitFor || strings.Contains(waitFor, ": ") ||
+			!(string(stderrData) == waitFor+"\n" || strings.HasSuffix(string(stderrData), "\n"+waitFor+"\n")) {
+			return bad
+		}
+	}
+	for _, c := range args[8].l {
+		if len(c.l) != 6 || c.l[2].i < 0 || c.l[2].i > 5 || c.l[3].i < 0 {
+			return bad
+		}
+		for _, n := range []string{c.l[0].str(), c.l[4].str()} {
+			for _, comp := range strings.Split(n, "/") {
+				if comp == "*" || comp == "**" {
+					return bad // the outcome counter stores names as literal trie patterns
+				}
+			}
+		}
+	}
 
 	expected := &conformancev1.ClientResponseResult{
 		Payloads: []*conformancev1.ConformancePayload{{Data: []byte("data")}},
@@ -566,7 +610,11 @@ func verifC11Batch(args []vsx) vsx {
 	gid := <-gidCh
 
 	returned := false
-	deadline := time.Now().Add(verifC11Patience)
+	patience := verifC11Patience
+	if block {
+		patience += serverResponseTimeout
+	}
+	deadline := time.Now().Add(patience)
 	fired := false
 	for spins := 0; ; spins++ {
 		select {
@@ -598,6 +646,10 @@ func verifC11Batch(args []vsx) vsx {
 	}
 	if !returned {
 		verifC11Hangs++
+		if os.Getenv("VERIF_DEBUG") != "" {
+			buf := make([]byte, 1<<20)
+			fmt.Fprintf(os.Stderr, "verif: runTestCasesForServer did not return; goroutines:\n%s\n", buf[:runtime.Stack(buf, true)])
+		}
 		// let the stuck function go, then report the hang
 		client.fire(client.takePending())
 		client.exit()
@@ -612,7 +664,7 @@ func verifC11Batch(args []vsx) vsx {
 	if waitFor != "" {
 		select {
 		case <-errPrinter.seen:
-		case <-time.After(verifC11Patience):
+		case <-time.After(verifC11ReaderPatience):
 			verifC11Hangs++
 			return vErr("stderr-reader-never-finished")
 		}
